@@ -63,7 +63,9 @@ class Ctx:
 
     def require_instances(self, rule, minimum):
         n = self.instances.get(rule, 0)
-        if n < minimum:
+        if n < minimum and not self.findings:
+            # (when findings exist the run already fails with VIOLATION lines; a reduced instance count is then
+            #  usually a consequence of the reported defect, e.g. an interpretation that stopped early)
             raise AnalysisError(f"rule {rule} matched {n} instance(s), fewer than the {minimum} confirmed by reading "
                                 f"(anchor vanished or idiom no longer recognised)")
 
